@@ -183,7 +183,7 @@ func lGenN(r *Rng, id int, n int) lHist {
 		case x < 22:
 			h.Ops = append(h.Ops, lOp{Op: "swap_out", U: u, V: r.Intn(5), Pool: r.Intn(2), Dir: r.Intn(2), Amt: amt(), Rel: r.Intn(4)})
 		case x < 25:
-			h.Ops = append(h.Ops, lOp{Op: "swap_hop", U: u, Dir: r.Intn(2), Amt: amt()})
+			h.Ops = append(h.Ops, lOp{Op: "swap_hop", U: u, Dir: r.Intn(5), Amt: amt()})
 		case x < 33:
 			h.Ops = append(h.Ops, lOp{Op: "join", U: u, Pool: r.Intn(2), Dir: r.Intn(3), Amt: amt()})
 		case x < 40:
@@ -307,6 +307,18 @@ func (x *lRun) exec(op lOp) (res TxResult, amt *big.Int) {
 	case "swap_hop":
 		v := bigOf(op.Amt)
 		amt = v.BigInt()
+		switch op.Dir {
+		case 2: // a route that visits the SAME pool twice: USDC -> ELYS -> USDC through the cp pool
+			return w.Deliver(&ammtypes.MsgSwapExactAmountIn{Sender: u, Routes: []ammtypes.SwapAmountInRoute{{PoolId: m.CPPool, TokenOutDenom: ELYS}, {PoolId: m.CPPool, TokenOutDenom: USDC}},
+				TokenIn: sdk.NewCoin(USDC, v), TokenOutMinAmount: I(1), Recipient: u}), amt
+		case 3: // same pool twice on the oracle pool, then on to the cp pool: ATOM -> USDC -> ATOM -> USDC(oracle) -> ELYS
+			return w.Deliver(&ammtypes.MsgSwapExactAmountIn{Sender: u, Routes: []ammtypes.SwapAmountInRoute{{PoolId: m.OraclePool, TokenOutDenom: USDC}, {PoolId: m.OraclePool, TokenOutDenom: ATOM},
+				{PoolId: m.OraclePool, TokenOutDenom: USDC}, {PoolId: m.CPPool, TokenOutDenom: ELYS}},
+				TokenIn: sdk.NewCoin(ATOM, v), TokenOutMinAmount: I(1), Recipient: u}), amt
+		case 4: // exact-out through the same pool twice: ELYS <- USDC <- ELYS on the cp pool
+			return w.Deliver(&ammtypes.MsgSwapExactAmountOut{Sender: u, Routes: []ammtypes.SwapAmountOutRoute{{PoolId: m.CPPool, TokenInDenom: ELYS}, {PoolId: m.CPPool, TokenInDenom: USDC}},
+				TokenOut: sdk.NewCoin(ELYS, v), TokenInMaxAmount: v.MulRaw(1000).AddRaw(1000), Recipient: u}), amt
+		}
 		if op.Dir == 0 { // ELYS -> USDC (cp) -> ATOM (oracle)
 			return w.Deliver(&ammtypes.MsgSwapExactAmountIn{Sender: u, Routes: []ammtypes.SwapAmountInRoute{{PoolId: m.CPPool, TokenOutDenom: USDC}, {PoolId: m.OraclePool, TokenOutDenom: ATOM}},
 				TokenIn: sdk.NewCoin(ELYS, v), TokenOutMinAmount: I(1), Recipient: u}), amt
